@@ -4,7 +4,7 @@ from concurrent.futures import ThreadPoolExecutor
 
 from . import build
 
-QUICK_VARIANTS = ['rel', 'dbg', 'nostd-rel', 'nostd-dbg', 'min-rel', 'guard-rel']
+QUICK_VARIANTS = ['rel', 'dbg', 'nostd-rel', 'nostd-dbg', 'min-rel', 'guard-rel', 'guard-nostd-rel']
 THOROUGH_VARIANTS = ['min-dbg', 'guard-dbg', 'asan']
 
 
